@@ -68,11 +68,28 @@ func (c *Conn) readable() bool {
 }
 
 func (c *Conn) Read(p []byte) (int, error) {
+	if !vrt.Active() {
+		// pass-through (free-running -race pass): poll under the harness lock
+		for {
+			vrt.HLock()
+			if c.readable() {
+				n, err := c.readLocked(p)
+				vrt.HUnlock()
+				return n, err
+			}
+			vrt.HUnlock()
+			time.Sleep(50 * time.Microsecond)
+		}
+	}
 	if c.fault("read") != nil {
 		vrt.Yield("conn.Read")
 		return 0, errors.New("sim: injected read error")
 	}
 	vrt.Await("conn.Read", c.readable)
+	return c.readLocked(p)
+}
+
+func (c *Conn) readLocked(p []byte) (int, error) {
 	if c.Closed {
 		return 0, net.ErrClosed
 	}
@@ -92,6 +109,8 @@ func (c *Conn) Read(p []byte) (int, error) {
 }
 
 func (c *Conn) Write(p []byte) (int, error) {
+	vrt.HLock()
+	defer vrt.HUnlock()
 	f := c.fault("write")
 	vrt.Yield("conn.Write")
 	if c.BlockWrites {
@@ -125,6 +144,8 @@ func (c *Conn) Write(p []byte) (int, error) {
 }
 
 func (c *Conn) Close() error {
+	vrt.HLock()
+	defer vrt.HUnlock()
 	f := c.fault("close")
 	vrt.Yield("conn.Close")
 	c.CloseN++
@@ -151,6 +172,8 @@ func (c *Conn) SetDeadline(t time.Time) error {
 }
 
 func (c *Conn) SetReadDeadline(t time.Time) error {
+	vrt.HLock()
+	defer vrt.HUnlock()
 	f := c.fault("setrdl")
 	vrt.Yield("conn.SetReadDeadline")
 	if f != nil {
@@ -173,6 +196,8 @@ func (c *Conn) SetReadDeadline(t time.Time) error {
 }
 
 func (c *Conn) SetWriteDeadline(t time.Time) error {
+	vrt.HLock()
+	defer vrt.HUnlock()
 	f := c.fault("setwdl")
 	vrt.Yield("conn.SetWriteDeadline")
 	if f != nil {
